@@ -24,6 +24,16 @@ func (r ConditionalRule) String() string {
 }
 
 func (r ConditionalRule) Negate() Rule {
+	if r.ElseIsDefined() {
+		if r.Negated {
+			return NewIfThenElseConditional(false, r.IfRule(), r.ThenRule(), r.ElseRule())
+		}
+		// ¬((if → then) ∧ (¬if → else)) <==> (if ∧ ¬then) ∨ (¬if ∧ ¬else)
+		return NewOr(false, []Rule{
+			NewAnd(false, []Rule{r.IfRule(), r.ThenRule().Negate()}),
+			NewAnd(false, []Rule{r.IfRule().Negate(), r.ElseRule().Negate()}),
+		})
+	}
 	return NewConditional(!r.Negated, r.IfRule(), r.ThenRule())
 }
 
